@@ -8,12 +8,16 @@
 // store's live markers are judged by spec/IdGenTrace.tla.
 //
 // Time: the allocator's 30 s renew ticker and 90 s claim TTL are compile-time constants with no
-// constructor parameter and no exported renew function, so behaviours in which time passes
-// (Renew / Tick / Expire) are driven with REAL waiting in the thorough tier only (about 2 min,
-// all of them concurrently); the quick tier drives the untimed interleavings.
+// constructor parameter and no exported renew function. The lease histories (claim - renewals with
+// transient store faults - release / crash - expiry - next holder; behaviours with Clock "fake") are
+// driven in VIRTUAL time in both tiers: inside a bubble of the Go runtime's fake clock
+// (testing/synctest, bubble.go; the driver is built with GOEXPERIMENT=synctest, build.env). The
+// older timed behaviours are driven with REAL waiting in the thorough tier only (about 2-4 min,
+// all of them concurrently) - the cross-check of the virtual clock.
 //
 // Environment: VERIF_C15_SCOPE=all also demands cross-instance uniqueness on the store without
 // SetNX (out of the property's scope by default, see inScope) - used to show that finding.
+// VERIF_C15_REALLOC=1 lets allocators allocate again after Release in the lease models (see reallocOn).
 // VERIF_C15_PROCS=n runs the gate-scheduled part on n Ps instead of 1 (see enterFree); VERIF_DEBUG=1
 // prints drive time per behaviour class.
 package main
@@ -24,6 +28,7 @@ import (
 	"hash/fnv"
 	"os"
 	"runtime"
+	"runtime/debug"
 	"sort"
 	"strconv"
 	"strings"
@@ -61,8 +66,11 @@ type behaviour struct {
 	St     []step `json:"st,omitempty"`
 	NSlots int    `json:"nslots,omitempty"`
 	Timed  bool   `json:"timed,omitempty"`
-	TTL0   bool   `json:"ttl0,omitempty"` // generator built with marker TTL 0 ("until Release"); hybrid with a short default cache TTL
-	Src    string `json:"src,omitempty"`  // generation job of a timed behaviour (they are selected in ExtraBeh)
+	TTL0   bool   `json:"ttl0,omitempty"`  // generator built with marker TTL 0 ("until Release"); hybrid with a short default cache TTL
+	Clock  string `json:"clock,omitempty"` // node, timed: "fake" = driven under the runtime's fake clock (bubble.go); "" = real waiting
+	Tail   int    `json:"tail,omitempty"`  // fake clock: fault-free renew periods between the two closing allocations by fresh nodes
+	MaxCF  int    `json:"maxcf,omitempty"` // fake clock: bound on failed renewals in a row per claim key (enforced by the fault injector)
+	Src    string `json:"src,omitempty"`   // generation job of a timed behaviour (they are selected in ExtraBeh)
 	Cat    string `json:"cat,omitempty"`
 	Seed   int    `json:"seed,omitempty"`
 	Procs  int    `json:"procs,omitempty"`
@@ -71,6 +79,11 @@ type behaviour struct {
 }
 
 var scopeAll = os.Getenv("VERIF_C15_SCOPE") == "all"
+
+// VERIF_C15_REALLOC=1: the lease models let an allocator allocate again after its Release (IdGen.tla,
+// Realloc). The code as it is then loses the heartbeat (stopCh stays closed): confirmed on the real
+// code with this switch, but no call site of tunnox-core re-uses an allocator, so it is off by default.
+var reallocOn = os.Getenv("VERIF_C15_REALLOC") == "1"
 
 // Gate-scheduled driving is a strict hand-over between the driver goroutine and one process
 // goroutine at a time, and every gate identifies its goroutine through runtime.Stack, which takes
@@ -175,6 +188,9 @@ func drive(env *fw.Env, fb fw.Behaviour) *fw.Trace {
 		defer enterFree()()
 		return driveGenFree(env, &b)
 	case "node":
+		if b.Clock == "fake" {
+			return inBubble(4*time.Minute, func() *fw.Trace { return driveNode(env, &b) })
+		}
 		return driveNode(env, &b)
 	case "nodefree":
 		defer enterFree()()
@@ -189,6 +205,8 @@ type mcfg struct {
 	mode, procs, layouts, renew, wiring string
 	faults                              string // kinds of store operation of which one may fail once
 	maxRF                               int    // transient heartbeat failures per node
+	maxCF                               int    // ... in a row (0 = the default 1: never two in a row)
+	realloc                             bool   // node: an allocator may allocate again after its Release
 	lapse                               bool   // gen: the Lapse action
 	bothNX                              bool   // gen: one run over the SetNX store and the SetNX-less store
 	hasNX                               bool
@@ -218,7 +236,7 @@ func (c mcfg) job(name string, emit bool, invs string, workers int) fw.TLCJob {
 		"MAXATT": fmt.Sprint(max(c.maxAtt, 1)), "MAXCALLS": fmt.Sprint(max(c.maxCalls, 1)), "LAYOUTS": c.layouts,
 		"NSLOTS": fmt.Sprint(max(c.nslots, 1)), "RENEW": c.renew, "WIRING": c.wiring,
 		"MAXTICKS": fmt.Sprint(c.maxTicks), "EMIT": b(emit), "INVS": invs, "FAULTS": c.faults,
-		"MAXRF": fmt.Sprint(c.maxRF), "LAPSE": b(c.lapse)}}
+		"MAXRF": fmt.Sprint(c.maxRF), "MAXCF": fmt.Sprint(max(c.maxCF, 1)), "REALLOC": b(c.realloc), "STOPCHAN": map[bool]string{false: "once", true: "fresh"}[c.realloc], "LAPSE": b(c.lapse)}}
 }
 
 const (
@@ -230,11 +248,12 @@ const (
 	l3  = `"distinct", "same", "mixed"`
 	inG = "Unique HeldDisjoint NoTaken HeldMarked Exhaustion"
 	inF = "NoTaken Exhaustion FallbackOnlyDeviation"
-	inN = "NodeUnique NoForeign ClaimNeverExpiresUnderLiveHolder NoWrongTier FailedHoldsNothing Unique HeldDisjoint"
+	inN = "NodeUnique NoForeign ClaimNeverExpiresUnderLiveHolder NoWrongTier FailedHoldsNothing Unique HeldDisjoint HeartbeatRunsWhileLive LeaseMargin NoHeartbeatWithoutHolder"
 	fG  = `"SetNX", "Delete"`         // one failing SetNX / Delete on the shared store
 	fF  = `"Exists", "Set", "Delete"` // fallback path
 	fN  = `"SetNX", "Entropy"`        // one failing SetNXRuntime during allocation | the UUID sub-model with an entropy-failure window
 	fA  = `"SetNX", "Delete", "Exists", "Set"`
+	fL  = `"SetNX", "Delete"` // lease histories: one failing SetNXRuntime (allocation) / Delete (Release) at any time
 	inL = "NoForeign NodeOnlyDeviation"
 )
 
@@ -254,6 +273,11 @@ func modelJobs(env *fw.Env) []fw.TLCJob {
 		mcfg{mode: "node", procs: n3, nslots: 2, renew: "local", wiring: "same", maxTicks: 5}.job("mc:node:timed:renew=local:same", false, inN, 8),
 		// the allocator as it was on memory+redis: the only route to two live holders is the named deviation
 		mcfg{mode: "node", procs: n3, nslots: 2, renew: "local", wiring: "split", maxTicks: 5}.job("mc:node:timed:renew=local:split(legacy)", false, inL, 8),
+		// the lease over time with transient store faults: three nodes
+		mcfg{mode: "node", procs: n3, nslots: 1, maxCalls: 1, renew: "claim", wiring: "split", maxTicks: 6, maxRF: 3, maxCF: 1, faults: fL}.job("mc:node:lease:3x1", false, inN, 8),
+		mcfg{mode: "node", procs: n3, nslots: 2, maxCalls: 1, renew: "claim", wiring: "split", maxTicks: 5, maxRF: 2, maxCF: 1, faults: `"Delete"`}.job("mc:node:lease:3x2", false, inN, 8),
+		// ... and allocators used again after Release, with a stop channel per allocation (repair C15-2)
+		mcfg{mode: "node", procs: n2, nslots: 1, maxCalls: 2, renew: "claim", wiring: "split", maxTicks: 6, maxRF: 3, maxCF: 1, faults: `"Delete"`, realloc: true}.job("mc:node:lease:realloc:fresh", false, inN, 8),
 	}
 }
 
@@ -270,10 +294,28 @@ func genJobs(env *fw.Env) []fw.TLCJob {
 		mcfg{mode: "gen", procs: p2, layouts: l2, bothNX: true, ncands: 2, maxAtt: 2, maxCalls: 2, faults: faults, lapse: true}.job("gen:both:2x2x2", true, "GenOK", 8),
 		mcfg{mode: "node", procs: n3, nslots: 2, ncands: 6, maxCalls: 2, faults: fN}.job("gen:node:untimed", true, inN, 4),
 	}
+	// The lease of a node id over time (claim - heartbeat renewals - transient store faults - release /
+	// crash - expiry - next holder): driven under the runtime's fake clock (bubble.go), so in both tiers.
+	//   lease      two nodes contending for the slots, short horizon, every interleaving of Release / Crash /
+	//              the other node's allocation with the periods, <= 3 failed renewals per node (never two in
+	//              a row), one failing SetNX / Delete at any time
+	//   lease:long one holder (quick) / two nodes (thorough) over a long horizon, <= 6 (5) failed renewals
+	// (with VERIF_C15_REALLOC=1 the model is the one of the repaired allocator - a fresh stop channel per
+	// allocation - so that what the code as it is does instead shows up as a departure and, judged, as the duplicate)
+	inLease, calls, horizon, lf := inN, 1, 6, fL
+	if reallocOn {
+		calls, horizon, lf = 2, 5, "" // (two allocations per allocator: a smaller horizon keeps the model the size of the default one)
+	}
 	if env.Tier == "quick" {
-		// (the timed allocator models are checked in the thorough tier)
+		jobs = append(jobs,
+			mcfg{mode: "node", procs: n2, nslots: 1, maxCalls: calls, renew: "claim", wiring: "split", maxTicks: horizon, maxRF: 3, maxCF: 1, faults: lf, realloc: reallocOn}.job("gen:node:lease:s1", true, inLease, 1),
+			mcfg{mode: "node", procs: `"n1"`, nslots: 1, maxCalls: calls, renew: "claim", wiring: "split", maxTicks: 14, maxRF: 6, maxCF: 1, realloc: reallocOn}.job("gen:node:lease:long:s1", true, inLease, 1))
+		// (the larger lease models and the histories with real waiting are checked in the thorough tier)
 		return jobs
 	}
+	jobs = append(jobs,
+		mcfg{mode: "node", procs: n2, nslots: 2, maxCalls: calls, renew: "claim", wiring: "split", maxTicks: horizon - 2, maxRF: 2, maxCF: 1, faults: lf, realloc: reallocOn}.job("gen:node:lease:s2", true, inLease, 8),
+		mcfg{mode: "node", procs: n2, nslots: 1, maxCalls: calls, renew: "claim", wiring: "split", maxTicks: 10, maxRF: 4, maxCF: 1, realloc: reallocOn}.job("gen:node:lease:long:s1", true, inLease, 4))
 	jobs = append(jobs,
 		mcfg{mode: "gen", procs: p2, layouts: l2, hasNX: true, ncands: 3, maxAtt: 3, maxCalls: 2}.job("gen:setnx:2x3x2:att3", true, inG, 8),
 		mcfg{mode: "gen", procs: p3, layouts: l3, hasNX: true, ncands: 2, maxAtt: 2, maxCalls: 1}.job("gen:setnx:3x2x1", true, inG, 8),
@@ -442,6 +484,38 @@ func expand(env *fw.Env, src string, raw json.RawMessage) []json.RawMessage {
 			stash = append(stash, behaviour{Kind: "node", Store: "split", Tk: m.Tk, St: m.St, NSlots: ns, Timed: true, Src: src, Cat: cat})
 			stashMu.Unlock()
 		}
+	case strings.HasPrefix(src, "gen:node:lease"):
+		// lease histories, fake clock. NSlots of the model is the job name's suffix. Each goes to one of the
+		// three wirings. Quick tier: thinned out by a hash (not by the seed: the same selection in every run) -
+		// every second history of the long single-holder model, every third history of the two-node model in
+		// which one holder had three failed renewals, every twelfth of its other histories (thorough: every second /
+		// every fourth history of the larger models, then capped by maxBehSrc).
+		ns := 1
+		if strings.HasSuffix(src, ":s2") {
+			ns = 2
+		}
+		fails := map[string]int{}
+		deep := false
+		for _, s := range m.St {
+			if s.A == "Renew" && s.R == "fail" {
+				fails[s.P]++
+				deep = deep || fails[s.P] >= 3
+			}
+		}
+		long := strings.Contains(src, ":long")
+		if env.Tier == "quick" {
+			switch {
+			case long && h%2 != 0, !long && deep && h%3 != 0, !long && !deep && h%12 != 0:
+				return nil
+			}
+		} else if long && h%2 != 0 || !long && h%4 != 0 {
+			return nil // (thorough: the larger models, thinned out here so that 150 000 expanded behaviours are never held in memory)
+		}
+		ws := []string{"split", "same", "local"}
+		ws = ws[h/12%3 : h/12%3+1]
+		for _, w := range ws {
+			out = append(out, fw.MustJSON(behaviour{Kind: "node", Store: w, Tk: m.Tk, St: m.St, NSlots: ns, Timed: true, Clock: "fake", Tail: 4, MaxCF: 1}))
+		}
 	case strings.HasPrefix(src, "gen:node") && (m.St[0].A == "UGen" || strings.HasPrefix(m.St[0].A, "Entropy")):
 		for i, k := range []string{"conn", "tun", "pmi"} {
 			out = append(out, fw.MustJSON(behaviour{Kind: "uuid", API: []string{"mgr", "gen"}[(h+i)%2], IDKind: k, Tk: []int{}, St: m.St}))
@@ -541,6 +615,11 @@ func extraBeh(env *fw.Env) []json.RawMessage {
 func maxBehSrc(env *fw.Env, src string) int {
 	q := env.Tier == "quick"
 	switch {
+	case strings.HasPrefix(src, "gen:node:lease"):
+		if q {
+			return 0 // (thinned out in expand)
+		}
+		return 8000
 	case strings.HasPrefix(src, "gen:node"):
 		if q {
 			return 3000
@@ -577,6 +656,21 @@ func postDrive(env *fw.Env, traces []*fw.Trace) error {
 			fmt.Printf("[c15] drive time %-28s n=%-6d total=%v\n", k, countBy[k], timeBy[k].Round(time.Millisecond))
 		}
 	}
+	lease, leaseDiv, leaseByW := 0, 0, map[string]int{}
+	for _, t := range traces {
+		var b behaviour
+		if t.Status == fw.Realised && json.Unmarshal(t.Beh.Data, &b) == nil && b.Clock == "fake" {
+			lease++
+			leaseByW[b.Store]++
+			if strings.Contains(t.Note, "diverged") {
+				leaseDiv++
+			}
+		}
+	}
+	fmt.Printf("[c15] lease histories of the node-id allocator driven under the Go runtime's fake clock (testing/synctest bubble: the real 30 s "+
+		"heartbeat ticker and the 90 s claim TTL run in virtual time): %d (split %d, same %d, local %d), %d of them left their script; "+
+		"each is closed by an allocation of a fresh node, %d fault-free periods and another allocation; the same kind of history with real waiting: thorough tier\n",
+		lease, leaseByW["split"], leaseByW["same"], leaseByW["local"], leaseDiv, 4)
 	followed, diverged := 0, 0
 	oosTraces, oosDup := 0, 0
 	divBySrc := map[string]int{}
@@ -590,6 +684,9 @@ func postDrive(env *fw.Env, traces []*fw.Trace) error {
 			divBySrc[t.Beh.Src]++
 			if firstDiv[t.Beh.Src] == "" {
 				firstDiv[t.Beh.Src] = t.Note
+				if os.Getenv("VERIF_DEBUG") != "" {
+					firstDiv[t.Beh.Src] += " BEH=" + string(t.Beh.Data)
+				}
 			}
 		} else {
 			followed++
@@ -643,7 +740,7 @@ func cloneTrace(t *fw.Trace, id int) *fw.Trace {
 	return c
 }
 
-// selfTest corrupts accepted traces in five ways; the judge must reject every one.
+// selfTest corrupts accepted traces in six ways; the judge must reject every one.
 func selfTest(env *fw.Env, acc []*fw.Trace) []*fw.Trace {
 	var out []*fw.Trace
 	next := 1 << 20
@@ -653,7 +750,7 @@ func selfTest(env *fw.Env, acc []*fw.Trace) []*fw.Trace {
 		out = append(out, c)
 	}
 	for _, t := range acc {
-		if len(out) >= 60 {
+		if len(out) >= 72 {
 			break
 		}
 		if len(t.Events) == 0 || t.Events[0]["scope"] != true {
@@ -662,8 +759,17 @@ func selfTest(env *fw.Env, acc []*fw.Trace) []*fw.Trace {
 		taken, _ := t.Events[0]["taken"].([]any)
 		outst := map[string]int{} // id -> index of the Ret that made it outstanding
 		relCall := map[string]int{}
+		crashAt := map[string]int{} // id -> index of the Crash event of the node that held it
+		holder := map[string]string{}
 		for i, e := range t.Events {
 			switch {
+			case e["ev"] == "Crash":
+				for x, p := range holder {
+					if p == evStr(e, "p") {
+						crashAt[x] = i
+						delete(outst, x)
+					}
+				}
 			case e["ev"] == "Call" && e["op"] == "Rel":
 				delete(outst, evStr(e, "id"))
 				relCall[evStr(e, "id")] = i
@@ -688,6 +794,15 @@ func selfTest(env *fw.Env, acc []*fw.Trace) []*fw.Trace {
 					c.Events = append(c.Events[:j:j], c.Events[j+1:]...)
 					add("droprel", c)
 				}
+				// (f) lease histories: the id of a crashed node handed out again after its claim ran out: drop the crash
+				if j, ok := crashAt[id]; ok && count["dropcrash"] < 12 {
+					next++
+					c := cloneTrace(t, next)
+					c.Events = append(c.Events[:j:j], c.Events[j+1:]...)
+					add("dropcrash", c)
+					delete(crashAt, id)
+				}
+				holder[id] = evStr(e, "p")
 				// (b) a success returns a pre-existing id
 				if len(taken) > 0 && count["taken"] < 12 {
 					next++
@@ -734,6 +849,12 @@ func selfTest(env *fw.Env, acc []*fw.Trace) []*fw.Trace {
 }
 
 func main() {
+	// the thorough tier holds several hundred thousand generated behaviours; with the framework's GC
+	// setting the process grew to 7 GB (and was the OOM killer's choice on a loaded machine). A soft
+	// limit makes the collector work earlier: 3.2 GB peak, same wall time (measured).
+	if os.Getenv("GOMEMLIMIT") == "" {
+		debug.SetMemoryLimit(3 << 30)
+	}
 	corelog.SetDefault(corelog.NewNopLogger())
 	installReader()
 	runtime.GOMAXPROCS(gatedProcs)
@@ -762,14 +883,18 @@ func main() {
 		},
 		Rule: "one behaviour per (state, action) transition of IdGen.tla: 2-3 callers over 1-3 generator instances x 2-3 candidates x 2 calls " +
 			"(SetNX store, SetNX-less store, hybrid nodes over one shared cache; every pattern of pre-existing ids), and 3 nodes x 2 slots for the " +
-			"node-id allocator (thorough: timed histories with the real 30 s heartbeat / 90 s TTL), forced on the real generators / IDManagers / " +
+			"node-id allocator; the lease of a node id over time (claim, heartbeat renewals with transient store faults, release / crash, expiry, " +
+			"next holder; 2 nodes x 6 periods and 1 holder x 14 periods, thorough: 2 slots / 10 periods) under the runtime's fake clock, each history closed by " +
+			"allocations of fresh nodes (thorough also: timed histories with real waiting for the 30 s heartbeat / 90 s TTL), forced on the real generators / IDManagers / " +
 			"allocators through gate-controlled store doubles with a scripted crypto/rand.Reader; non-trivial = followed to the end with at least two returns",
 		Assumptions: []string{
 			"nodes are objects of one process sharing one store double; the doubles are correct maps (SetNX atomic)",
-			"a live node renews on schedule (its heartbeat goroutine runs); marker TTL (30 days) expiry is outside the behaviours",
+			"a live node's heartbeat goroutine is scheduled on time (the lease histories run under the Go runtime's fake clock - testing/synctest - so this holds by construction); marker TTL (30 days) expiry is outside the behaviours",
+			"store faults are transient: a holder's renewal never fails twice in a row (claim TTL = 3 renew periods; with 2 failures in a row the deciding renewal falls on the expiry instant - IdGen_show_outage.cfg - the limit of any lease); the fault injector enforces this on the real sequence of attempts",
+			"an allocator object is not used again after its Release (no call site in tunnox-core does; VERIF_C15_REALLOC=1 drives it: IdGen_show_realloc.cfg)",
 			"a store without SetNX shared by several generator instances is outside the property (no storage.Storage of tunnox-core lacks SetNX); single-instance use of such a store is inside",
-			"timed allocator histories only in the thorough tier (30 s ticker and 90 s TTL are compile-time constants)",
+			"allocator histories with REAL waiting only in the thorough tier (30 s ticker and 90 s TTL are compile-time constants); both tiers drive the lease histories in virtual time",
 		},
-		TrustedBase: []string{"TLC", "spec/IdGenTrace.tla as the reading of C15", "harness/sched gate scheduler", "harness/doubles store double", "scripted crypto/rand.Reader (drivers/c15/rand.go)"},
+		TrustedBase: []string{"TLC", "spec/IdGenTrace.tla as the reading of C15", "harness/sched gate scheduler", "harness/doubles store double", "scripted crypto/rand.Reader (drivers/c15/rand.go)", "the Go runtime's fake clock (testing/synctest, GOEXPERIMENT=synctest; drivers/c15/bubble.go)"},
 	})
 }
